@@ -163,7 +163,7 @@ func init() {
 			"(type, relation, operand position, nesting depth 0-3) x random layout; oracle on the real parser: non-nil error and nil model from TransformDSLToProto and " +
 			"TransformModularDSLToProto; correspondence: real parser vs Lean clean+walk (listener-raised errors with positions). non-trivial = distinct rejected text per kind"
 		rng := rand.New(rand.NewSource(c.Seed))
-		n := c.Pick(180, 2000)
+		n := c.Pick(180, 700)
 		sites := c.Pick(3, 8)
 		for i := 0; i < n; i++ {
 			for _, v := range c09Catalogue {
